@@ -192,7 +192,7 @@ func c18Blocks() []gen.V {
 		{X: new(big.Int).Lsh(big.NewInt(1), 255), Class: "2^255"},
 	}
 
-	for _, v := range gen.Raw256(n) {
+	for _, v := range append(gen.Raw256(n), gen.UnitDigitTuples(n)...) {
 		if oracle.Mod(v.X, n).Sign() != 0 {
 			out = append(out, v)
 		}
